@@ -228,6 +228,9 @@ fn check_requested_attribute<'a>(
     credential_proofs: &[CredentialPresentationProofValue],
     non_revocation_required_for: &mut HashSet<usize>,
 ) -> Result<&'a W3CCredential> {
+    // the first credential that meets the conditions but lacks a required non-revocation proof
+    let mut fallback: Option<(usize, &'a W3CCredential)> = None;
+
     // find a credential matching to requested attribute
     for (index, credential) in presentation.verifiable_credential.iter().enumerate() {
         // credential must contain requested attribute in subject
@@ -254,6 +257,14 @@ fn check_requested_attribute<'a>(
                 proof,
             ) {
                 Ok(non_revocation_required) => {
+                    // a credential that would need a non-revocation proof but has none does not
+                    // serve this request as long as another credential can
+                    if non_revocation_required
+                        && require_non_revocation_proof(&proof.sub_proof).is_err()
+                    {
+                        fallback.get_or_insert((index, credential));
+                        continue;
+                    }
                     // a non-revocation interval applies to the credential that serves this request
                     if non_revocation_required {
                         non_revocation_required_for.insert(index);
@@ -291,6 +302,14 @@ fn check_requested_attribute<'a>(
             proof,
         ) {
             Ok(non_revocation_required) => {
+                // a credential that would need a non-revocation proof but has none does not
+                // serve this request as long as another credential can
+                if non_revocation_required
+                    && require_non_revocation_proof(&proof.sub_proof).is_err()
+                {
+                    fallback.get_or_insert((index, credential));
+                    continue;
+                }
                 // a non-revocation interval applies to the credential that serves this request
                 if non_revocation_required {
                     non_revocation_required_for.insert(index);
@@ -299,6 +318,11 @@ fn check_requested_attribute<'a>(
             }
             Err(_) => continue,
         }
+    }
+
+    if let Some((index, credential)) = fallback {
+        non_revocation_required_for.insert(index);
+        return Ok(credential);
     }
 
     Err(err_msg!(
@@ -320,6 +344,9 @@ fn check_requested_predicate<'a>(
     >,
     non_revocation_required_for: &mut HashSet<usize>,
 ) -> Result<&'a W3CCredential> {
+    // the first credential that meets the conditions but lacks a required non-revocation proof
+    let mut fallback: Option<(usize, &'a W3CCredential)> = None;
+
     // find a credential matching to requested predicate
     for (index, credential) in presentation.verifiable_credential.iter().enumerate() {
         // credential must contain requested predicate in subject
@@ -351,6 +378,14 @@ fn check_requested_predicate<'a>(
                 proof,
             ) {
                 Ok(non_revocation_required) => {
+                    // a credential that would need a non-revocation proof but has none does not
+                    // serve this request as long as another credential can
+                    if non_revocation_required
+                        && require_non_revocation_proof(&proof.sub_proof).is_err()
+                    {
+                        fallback.get_or_insert((index, credential));
+                        continue;
+                    }
                     // a non-revocation interval applies to the credential that serves this request
                     if non_revocation_required {
                         non_revocation_required_for.insert(index);
@@ -360,6 +395,11 @@ fn check_requested_predicate<'a>(
                 Err(_) => continue,
             }
         }
+    }
+
+    if let Some((index, credential)) = fallback {
+        non_revocation_required_for.insert(index);
+        return Ok(credential);
     }
 
     Err(err_msg!(
